@@ -132,6 +132,16 @@ class C19(Prop):
         mk("wait-max-1-rearms", ["post 1 1 1", "post 2 2 2", "post 1 3 3", "wait 1", "wait 1", "wait 1", "wait 1"])
         mk("zero-key-zero-data", ["post 1 0 0", "wait 4", "post 1 0 0", "post 2 0 0", "wait 4"])
         mk("wide-key-data", ["post 1 4294967296 4294967297", "post 2 4294967295 2147483648", "wait 8"])
+        # the window INSIDE a wait: another thread posts between the steps of async_runtime_wait (lost wake-up when the
+        # doorbell is reset after the ring was drained)
+        mk("post-before-doorbell-read", ["post 1 7 1", "wbegin 8", "post 2 7 2", "wread", "wend", "wait 8", "wait 8"])
+        mk("post-after-doorbell-read", ["post 1 7 1", "wbegin 8", "wread", "post 2 7 2", "wend", "wait 8", "wait 8"])
+        mk("post-in-both-windows", ["post 1 7 1", "wbegin 1", "post 2 7 2", "wread", "post 3 7 3", "wend", "wbegin 8", "wakeup",
+                                    "wread", "post 1 7 4", "wend", "wait 8", "wait 8"])
+        mk("wakeup-in-window", ["wakeup", "wbegin 4", "post 1 9 9", "wread", "wend", "wbegin 4", "wread", "wakeup", "wend",
+                                "wait 4", "wait 4"])
+        mk("split-wait-misuse", ["wread", "wend", "wbegin 4", "post 1 1 1", "wbegin 4", "wend", "wait 4", "wbegin 4", "wait 4",
+                                 "wend", "wread", "wread", "wend", "wait 4"])
         mk("ring-full", ["post 1 5 %d" % i for i in range(1026)] + ["wait 64"] * 17 + ["post 1 6 6", "wait 64"])
         # confirmed defect 2 (repaired): timed join before the thread stored RUNNING
         mk("join-before-running", ["wnew 1 hold", "wstate 1", "wjoin 1 50", "wrelease 1", "wstop 1", "wstep 1", "wjoin 1 50",
@@ -189,9 +199,19 @@ class C19(Prop):
                     L.append("post %d %d %d" % (p, rng.choice(KEYS), i))
             elif k == "wakeup":
                 L.append("wakeup")
-            else:
+            elif rng.chance(1, 2):
                 L.append("wait %d" % rng.weighted([(1, 4), (2, 3), (3, 2), (8, 3), (64, 3)]))
-        L += ["wait 64", "wait 64"]
+            else:
+                # one wait step by step, other threads' calls in the windows
+                def others():
+                    out = []
+                    for _ in range(rng.weighted([(0, 3), (1, 4), (2, 2), (4, 1)])):
+                        out.append("wakeup" if rng.chance(1, 5) else
+                                   "post %d %d %d" % (rng.range(1, 4), rng.choice(KEYS), rng.choice(DATA)))
+                    return out
+                L.append("wbegin %d" % rng.weighted([(1, 3), (2, 2), (8, 3), (64, 2)]))
+                L += others() + ["wread"] + others() + ["wend"]
+        L += ["wend", "wait 64", "wait 64"]
         return L
 
     def gen_q(self, rng, n):
